@@ -29,7 +29,7 @@ PID = "C07"
 PROOF_FILES = ["theories/Props/C07.v", "theories/Proofs/Epa.v", "theories/Checker/Pen.v", "theories/Checker/Narrow.v",
                "theories/Checker/Shapes.v", "theories/Spec/Convex.v"]
 KINDS_POLY = ["box", "hull", "mesh"]
-BUILD_TARGETS = ["theories/Props/C07.vo", "theories/Checker/Pen.vo", "theories/Checker/Deep.vo", "theories/Checker/Narrow.vo",
+BUILD_TARGETS = ["theories/Props/C07.vo", "theories/Checker/Pen.vo", "theories/Checker/Narrow.vo",
                  "theories/Model/EpaRun.vo"]
 # arms of gjk's exit / epa.py observed by the worker (harness/impl/narrowp.py)
 ALL_ARMS = ["gjk_exit_n_points_1", "gjk_exit_n_points_2", "gjk_exit_n_points_3", "gjk_exit_n_points_4",
@@ -589,12 +589,14 @@ def npn_bools(R, exprs, tag="cert"):
     if not exprs:
         return []
     outs = None
-    for attempt in range(2):
+    for attempt in range(3):
         try:
             outs = cm.coq_eval_lines(PID, npn.COQ_HEADER, exprs, tag=tag, per_file=10, timeout=1500)
             break
         except RuntimeError as e:
-            if attempt == 0 and "inconsistent assumptions" in str(e):
+            if attempt < 2 and "inconsistent assumptions" in str(e):
+                import time as _t
+                _t.sleep(15 * attempt)
                 cm.coq_build(BUILD_TARGETS)     # another agent rebuilt a dependency meanwhile
                 continue
             R.proof_broken.append(f"checker evaluation failed: {str(e)[:400]}")
